@@ -3,6 +3,7 @@ package main
 // Control flow: block ordering, merging, loop cutting, returns, panics/recover.
 
 import (
+	"go/token"
 	"fmt"
 	"go/ast"
 	"strings"
@@ -376,6 +377,10 @@ func (a *Act) blockIn(b *ssa.BasicBlock) *State {
 	a.prescanEscapes(hs, li)
 	mods, all := a.loopMods(li)
 	preHavoc := hs.copy()
+	// cells of this activation that the loop body assigns are not kept across the havoc
+	for _, name := range a.loopStoredAllocs(li) {
+		delete(preHavoc.owned, a.prefix+name)
+	}
 	hs.prov = &prov{kind: "havoc", prev: preHavoc, all: all, mods: mods, hint: "loop",
 		keepValue: func(key []Term) Term { return tr.preExisting(key[0]) }}
 	for name := range hs.heap {
@@ -818,8 +823,27 @@ func (a *Act) tailrecOblige(st *State, li *loopInfo, outT Term, what string) {
 	if what == "return" && a.mergedExit != nil {
 		cur = a.mergedExit // all exits share this heap: the relation is compiled once
 	}
+	// a captured state (readsat) that dominates this point: the relation reads the heap as it
+	// was there. Values are immutable once built (C02), and the abstract outcome functions take
+	// no heap, so any heap of this iteration in which the forms exist defines the same relation.
+	if a.curBlock != nil {
+		for _, snap := range a.readsAt[li.ord] {
+			if snap.block == a.curBlock || snap.block.Dominates(a.curBlock) {
+				cur = snap.st
+			}
+		}
+	}
 	e := &specEnv{a: nil, tr: tr, pkg: pkg, st: cur, old: a.entryState, errs: &errs, vars: vars}
-	g := e.evalBool(&ast.CallExpr{Fun: call.Fun, Args: args})
+	relCall := &ast.CallExpr{Fun: call.Fun, Args: args}
+	g := e.evalBool(relCall)
+	var gt *GoalTree
+	if treeish(tr, relCall, 0) {
+		// (reads made while unfolding the relation add no well-formedness assumptions: the
+		// compiled relation reads through bound variables and has none either)
+		tr.quietReads = true
+		gt = e.tree(relCall)
+		tr.quietReads = false
+	}
 	for _, m := range errs {
 		tr.specErr(fmt.Sprintf("%s (tailrec): %s", fnName(a.fn), m))
 	}
@@ -875,6 +899,81 @@ func (a *Act) tailrecOblige(st *State, li *loopInfo, outT Term, what string) {
 	for _, w := range ways {
 		base := fmt.Sprintf("%s/step/%s@«%s»", fname, what, w.label)
 		tr.oblCount[base]++
-		tr.obls = append(tr.obls, &Obligation{Name: fmt.Sprintf("%s#%d", base, tr.oblCount[base]), Kind: "step", Fn: fname, Pos: loc, Src: ts.rel.text, Guard: w.guard, Goal: g})
+		tr.obls = append(tr.obls, &Obligation{Name: fmt.Sprintf("%s#%d", base, tr.oblCount[base]), Kind: "step", Fn: fname, Pos: loc, Src: ts.rel.text, Guard: w.guard, Goal: g, Tree: gt})
 	}
+}
+
+// loopStoredAllocs: names of the address-taken locals (heap cells of this activation) that may be
+// assigned while the loop runs: stored directly in a loop block, or through a closure created in
+// the loop that assigns the captured variable.
+func (a *Act) loopStoredAllocs(li *loopInfo) []string {
+	seen := map[string]bool{}
+	var out []string
+	add := func(v ssa.Value) {
+		if al, ok := v.(*ssa.Alloc); ok && !seen[al.Name()] {
+			seen[al.Name()] = true
+			out = append(out, al.Name())
+		}
+	}
+	var storesFree func(f *ssa.Function, idx int, depth int) bool
+	storesFree = func(f *ssa.Function, idx int, depth int) bool {
+		if depth > 4 || idx >= len(f.FreeVars) {
+			return true
+		}
+		fv := f.FreeVars[idx]
+		for _, b := range f.Blocks {
+			for _, in := range b.Instrs {
+				switch x := in.(type) {
+				case *ssa.Store:
+					if x.Addr == ssa.Value(fv) {
+						return true
+					}
+				case *ssa.MakeClosure:
+					for j, bd := range x.Bindings {
+						if bd == ssa.Value(fv) && storesFree(x.Fn.(*ssa.Function), j, depth+1) {
+							return true
+						}
+					}
+				default:
+					// the address handed to anything else: assume assigned
+					for _, op := range in.Operands(nil) {
+						if *op == ssa.Value(fv) {
+							if u, ok := in.(*ssa.UnOp); ok && u.Op == token.MUL {
+								continue
+							}
+							if _, ok := in.(*ssa.DebugRef); ok {
+								continue
+							}
+							return true
+						}
+					}
+				}
+			}
+		}
+		return false
+	}
+	for _, b := range sortedBlocks(li.blocks) {
+		for _, in := range b.Instrs {
+			switch x := in.(type) {
+			case *ssa.Store:
+				add(x.Addr)
+			case *ssa.MakeClosure:
+				for j, bd := range x.Bindings {
+					if _, ok := bd.(*ssa.Alloc); ok && storesFree(x.Fn.(*ssa.Function), j, 0) {
+						add(bd)
+					}
+				}
+			case ssa.CallInstruction:
+				// a closure made before the loop and invoked inside it
+				if mc, ok := x.Common().Value.(*ssa.MakeClosure); ok {
+					for j, bd := range mc.Bindings {
+						if _, ok := bd.(*ssa.Alloc); ok && storesFree(mc.Fn.(*ssa.Function), j, 0) {
+							add(bd)
+						}
+					}
+				}
+			}
+		}
+	}
+	return out
 }
